@@ -11,18 +11,18 @@ HOOK_COMMITS = subprocess.run(
 CHECKS = {
  "C01": ("exploration", "runtime monitoring: differential execution of generated programs (regular vs obfuscated build), stdout/exit status/test verdict oracle",
   "Feature-composed multi-package programs are built by the regular toolchain and by garble under several flag/seed configurations; the binaries are run on several argument vectors and stdout+exit status compared; `garble test` verdict lines and `garble run` output are compared with go test / go run.",
-  "Programs come from a feature grammar (20 feature modules), not all Go programs; only linux/amd64 is executed; the regular toolchain is the reference."),
+  "Programs come from a feature grammar (28 feature modules incl. //go:embed, standard-library generics/iterators over program types, generic aliases, GOOS/GOARCH- and tag-selected files, unsafe.Offsetof constants, anonymous structs, stringer enums; every fifth program has a cgo package), not all Go programs; only linux/amd64 is executed; the regular toolchain is the reference."),
  "C02": ("exploration", "runtime monitoring: byte-level scan of produced binaries against generated marker sets + metadata probes",
-  "Every identifier, file, directory, package and module name of the generated programs is a unique random marker; the obfuscated binary is searched for each must-hide marker, the source/TMPDIR paths and the Go version; go version -m, go tool buildid and the ELF section table are probed. A marker only counts when the regular stripped binary of the same program contains it. A special-name program declares a type, function, field and variable named after every identifier-like string literal in garble's own sources (names it special-cases for std packages) and common Go API names: the name-map oracle (garbled sources kept by the hook) plus pclntab / type-string / field-name records of the binary decide whether such a name survived.",
+  "Every identifier, file, directory, package and module name of the generated programs is a unique random marker; the obfuscated binary is searched for each must-hide marker, the source/TMPDIR paths and the Go version; go version -m, the Go build ID note and the ELF section/symbol tables are probed (every fifth program has a cgo package and is linked externally). A marker only counts when the regular stripped binary of the same program contains it. A special-name program declares a type, function, field and variable named after every identifier-like string literal in garble's own sources (names it special-cases for std packages) and common Go API names: the name-map oracle (garbled sources kept by the hook) plus pclntab / type-string / field-name records of the binary decide whether such a name survived.",
   "Sensitivity is proven per marker against the regular stripped build; exceptions (exported methods, reflection, non-GOGARBLE packages) are not asserted present."),
  "C03": ("exploration", "runtime monitoring: sha256 comparison of repeated real builds; re-obfuscation of identical source by cache entry-diff deletion as schedule/map-order sampling; hook-counted compile actions",
   "Per (program, config) the first build in a private std-warm cache copy is the reference; the user packages are then re-obfuscated K times on byte-identical source by deleting exactly the cache entries that build created, varying -p, tree location, TMPDIR location and partial cache fill; two independent garble-cold builds and a warm build of one program are compared as well. Programs: composed multi-package programs, a literal-heavy program, a reflection program whose 18 reflected struct types share type and field names, control-flow programs with and without trash blocks.",
   "The clock cannot be set; equal toolchain/garble binary/platform throughout; control flow with trash blocks is a listed known finding."),
  "C04": ("exploration", "runtime monitoring: traces of executed obfuscated programs piped through garble reverse, frame-by-frame comparison with the -trimpath build's trace",
-  "Generated call-chain programs (9 frame kinds, 3 packages, panic / PrintStack / runtime.Callers terminals) are run as regular -trimpath and as obfuscated builds; the obfuscated stderr, embedded in surrounding text with LF/CRLF/no-final-newline variants, goes through `garble reverse` and every program frame (function and call-site position) must equal the regular trace; text without obfuscated tokens must pass through unchanged with exit status 1.",
+  "Generated call-chain programs (17 frame kinds incl. bound method values, method expressions, calls through interfaces, methods promoted from embedded pointers, literals in struct fields; 3 packages, one in a directory with a dot so that symbol names carry an escaped import path; panic / PrintStack / runtime.Callers terminals) are run as regular -trimpath and as obfuscated builds; the obfuscated stderr, embedded in surrounding text with LF/CRLF/no-final-newline variants, goes through `garble reverse` and every program frame (function and call-site position) must equal the regular trace; text without obfuscated tokens must pass through unchanged with exit status 1.",
   "pc offsets, goroutine ids and argument words are normalised; runtime frames are not compared; goroutine creation sites and closure indices under -literals are listed known findings."),
  "C05": ("exploration", "runtime monitoring: in-process application of the tree's literal obfuscator to generated programs + execution of the result; end-to-end differential through garble -literals",
-  "Generated import-free programs with ~120 literals each (all forms, 16 positions, boundary lengths, 5 byte classes) are rewritten by the tree's literals.Obfuscate with each of the 5 obfuscators forced and with random choice over several PRNG seeds, compiled and run; every printed value is compared with the source bytes. The same programs plus -ldflags=-X targets go through garble -literals and are compared with the regular build.",
+  "Generated import-free programs with ~120 literals each (all forms incl. constant conversions such as string(typedConst), 16 positions, boundary lengths, 5 byte classes) are rewritten by the tree's literals.Obfuscate with each of the 5 obfuscators forced and with random choice over several PRNG seeds, compiled and run; every printed value is compared with the source bytes. The same programs plus -ldflags=-X targets go through garble -literals and are compared with the regular build.",
   "Literal contexts come from a fixed grammar; a hook reports which literals were actually rewritten and by which obfuscator."),
  "C06": ("exploration", "runtime monitoring: build histories over one shared cache compared step by step with fresh-cache reference builds; hook-counted compile actions on unchanged rebuilds",
   "Histories of garble builds (18-config alphabet: flags, seeds, GOGARBLE scopes, control flow, tags, -ldflags=-X with and without -literals and under GOGARBLE=module; edits: comment, leaf body, main body, new file, value and comment-only edits in a package four levels down) run over one GOCACHE/GARBLE_CACHE; after every step sha256 and stdout must equal a reference build of the same config and source version from a cache that never saw the program; every second step is repeated unchanged and must run zero compile/asm actions.",
@@ -34,13 +34,13 @@ CHECKS = {
   "Generated programs send fresh struct types of 8 shapes along 19 flow paths to reflecting sinks (TypeOf/ValueOf walks, json, fmt, FieldByName); each program is re-obfuscated R times with fresh action IDs and map orders and every case line must equal the regular build's line in all R builds. The replacer injected into binaries is compared with strings.NewReplacer on generated pair tables.",
   "Package qualifiers are stripped (not promised); two flow classes are listed known findings (fmt verbs, package-level any variable)."),
  "C09": ("exploration", "runtime monitoring: byte-level scan of -literals binaries for planted unique literals",
-  "Unique planted literals (all forms/positions/lengths of C05, a second package, an -ldflags=-X declaration, GOGARBLE subset variant, random -seed) are searched verbatim in the binary garble -literals produces; exceptions carry an `allowed` tag and are asserted visible in the regular binary instead.",
+  "Unique planted literals (all forms/positions/lengths of C05 incl. constant conversions string(typedConst)/string(untypedConst)/nested/folded, a second package, an -ldflags=-X declaration, GOGARBLE subset variant, random -seed) are searched verbatim in the binary garble -literals produces; exceptions carry an `allowed` tag and are asserted visible in the regular binary instead.",
   "A must-hide literal only counts when the regular stripped binary contains it verbatim."),
  "C10": ("exploration", "runtime monitoring: differential execution of a crash catalogue (regular vs -tiny) over GOTRACEBACK settings and goroutine contexts",
-  "A crash-catalogue program (31 crash kinds x main/goroutine/deferred/init contexts x GOTRACEBACK settings, recover paths, position queries) is run as a regular and as a -tiny build: tiny stderr must equal the program's own OWN:-prefixed lines, stdout and exit status must be equal, recovered values unchanged, own-frame positions blank with line 1.",
+  "A crash-catalogue program (31 crash kinds x main/goroutine/deferred/init contexts x GOTRACEBACK settings, recover paths, position queries) is run as a regular and as a -tiny build (default GOGARBLE and GOGARBLE limited to the program's module): tiny stderr must equal the program's own OWN:-prefixed lines, stdout and exit status must be equal, recovered values unchanged, own-frame positions blank with line 1.",
   "GOTRACEBACK=crash excluded; runtime-internal frames keep their positions because the runtime is never obfuscated."),
  "C11": ("exploration", "runtime monitoring: differential execution of generated //garble:controlflow functions with effect traces, over a random directive-parameter grid; hook-reported dispatcher counts as coverage",
-  "Programs of 8 functions from 23 body kinds, each with random directive parameters, are built regularly and with control-flow obfuscation; every call's results, ordered side-effect trace and panic value must equal the regular build's. Rejected builds are retried one function per program so the remaining functions are still judged; rejections are counted, not judged.",
+  "Programs of 8 functions from 38 body kinds (loops, switches, ranges over every kind incl. int, select, defers, recover, eleven run-time panics, closures, method expressions, tuple assignment order, goroutines with sync primitives, recursion, shifts/overflow/NaN/complex arithmetic, goto loops, slice aliasing and conversions, pointer aliasing, embedded structs, ...), each with random directive parameters, are built regularly and with control-flow obfuscation; every call's results, ordered side-effect trace and panic value must equal the regular build's. Rejected builds are retried one function per program so the remaining functions are still judged; rejections are counted, not judged; the two shapes garble always rejects on the pinned tree (range over an iterator function, bound method values) are built on their own.",
   "Bodies come from fixed templates with random constants; functions whose build garble rejects are allowed by the statement; two body classes are listed known findings with dedicated witnesses."),
  "C12": ("exploration", "runtime monitoring: name maps extracted from the garbled sources actually compiled (hook) compared across build pairs that differ in one input",
   "One composed program (with two packages of identical declarations) is built under 10 (quick) to 16 (thorough) single-input variations; the name of every package-level object, method, field and interface method in the compiled program is extracted by a lock-step walk of original and garbled sources and compared pairwise: equal where -seed must fix it, different (>=99%) where an input must change it, different between packages, equal for identical struct shapes.",
@@ -55,7 +55,7 @@ CHECKS = {
   "Generated pairs of identical struct types (1-6 fields over 11 field-type kinds, embedded fields, generic instantiation, alias of anonymous struct, differing tags) declared in two or three packages are converted, assigned, built as composite values and selected in a third package; garble must build them and the program must print what the regular build prints.",
   "All packages inside GOGARBLE; field-name equality is observed through compilability/behaviour, not by reading garble's bookkeeping."),
  "C16": ("exploration", "runtime monitoring: in-process oracle over generated inputs + hook event stream of real builds",
-  "The tree's own naming function is executed in-process on 10^5 (quick) to 4*10^6 (thorough) generated (salt, seed, name) triples and every name garble produces during real garble-cold builds (std + program, ~9*10^4 applications per build) is taken from a hook stream; each output is checked for well-formedness, export preservation, purity and per-salt distinctness.",
+  "The tree's own naming function is executed in-process on 10^5 (quick) to 4*10^6 (thorough) generated (salt, seed, name) triples (ASCII and Unicode identifiers, non-identifiers, and per salt a family of 24 identifiers of 40-400 bytes that differ only in their tail) and every name garble produces during real garble-cold builds (std + program, ~9*10^4 applications per build) is taken from a hook stream; each output is checked for well-formedness, export preservation, purity and per-salt distinctness.",
   "Inputs are PRNG-generated, not exhaustive; clash classification trusts an independent sha256 recomputation."),
  "C17": ("exploration", "runtime monitoring of concurrent real processes: sha256 against isolated builds, hook event histories (one CLOCK_MONOTONIC) checked offline - linker-digest invariant, writer agreement per key, porcupine linearizability of the package cache - with failpoint sleeps widening windows and staged schedules released on observed process state (/proc/<pid>/task/*/syscall shows the other command blocked in flock)",
   "Scenarios of 2-8 garble builds started together over one GOCACHE/GARBLE_CACHE/TMPDIR (identical, different flags, different projects; -p 1/2/16; warm, linker deleted, stale stamp, garble-cold, fully cold) must each exit 0 with the sha256 of the same command run alone; every linker digest executed must be that of a completely built linker; all writers of a cache key must agree; the recorded get/put history must be linearizable per key (porcupine); no garble temp entries may remain.",
@@ -63,7 +63,7 @@ CHECKS = {
  "C18": ("fault_enumeration", "runtime monitoring with crash injection: SIGKILL of the build's process group at enumerated hook failpoints and PRNG-chosen instants, then rerun and compare with an uninterrupted build",
   "A build in its own process group is killed at each named failpoint (after listing, around every step of the linker patch/build/stamp protocol, before cache writes, before executing compiler/linker for chosen packages, before clean-up and trim) and at PRNG-chosen instants, from warm and from linker-less cold cache copies; a sample of reruns is killed again; the final rerun must exit 0 with the uninterrupted build's sha256. The evidence lists the phases the kills landed in.",
   "SIGKILL of the process group models a crash; unsynced-page loss (power failure) is out of reach; each trial starts from a fresh copy of its start state."),
- "C19": ("exploration", "runtime monitoring: before/after snapshots (mode, size, sha256) of the source tree, the -debugdir target and a private TMPDIR around every command; file-set comparison of -debugdir output with go list",
+ "C19": ("exploration", "runtime monitoring: before/after snapshots (mode, size, sha256) of the source tree, the -debugdir target and a private TMPDIR around every command; strace -f -y log of every mutating syscall of the whole process tree checked against the allowed roots; file-set comparison of -debugdir output with go list",
   "22 (quick) to 29 (thorough) command/outcome combinations (build, test, run, reverse, map x success, list error, type error, dependency compile error, link error, failing test, program exit status, bad flags, GOGARBLE matching nothing) run in a tree containing unrelated files with a private TMPDIR; the tree must be byte-identical afterwards, no garble temp entries may remain, foreign -debugdir targets (files, subdirectories, regular file, symlink) must be refused and untouched, and an owned -debugdir must hold source and garbled files for every file go list reports on cold, warm and partially deleted caches.",
   "Only commands that exit are judged (kills: C18); go's own go-build* directories are not garble's."),
  "C20": ("exploration", "runtime monitoring: process-boundary observation (argv of spawned commands via a stub go) + in-process differential oracle",
